@@ -405,7 +405,9 @@ func verifStartLoopWith(w *verifWorld, addrs []string) *verifLoopRun {
 	}
 	// step 0: the loop starts and connects to every configured lookupd
 	w.beginStep()
-	r.t0 = time.Now()
+	if !verifrt.Symbolic() {
+		r.t0 = verifWallNow()
+	}
 	go func() {
 		n.lookupLoop()
 		r.exited = true
